@@ -2,9 +2,9 @@
 BASELINE = "cd /repo && /venv/bin/python -m pytest -ra -q -p no:cacheprovider --timeout=900 --continue-on-collection-errors"
 
 ENGINES = [
-    {"name": "sqlsym", "path": "vt/sqlsym/", "serves_properties": ["C01", "C03", "C04", "C05", "C06", "C07", "C10", "C41"],
+    {"name": "sqlsym", "path": "vt/sqlsym/", "serves_properties": ["C01", "C02", "C03", "C04", "C05", "C06", "C07", "C08", "C09", "C10", "C14", "C39", "C41"],
      "kind_free_text": "MySQL-subset parser + symbolic/concrete interpreter over bounded key spaces (z3 terms, no path forking); routines read from the migrations in build.yaml order"},
-    {"name": "glue", "path": "vt/glue.py", "serves_properties": ["C01", "C03", "C04", "C05", "C06", "C07", "C10", "C41"],
+    {"name": "glue", "path": "vt/glue.py", "serves_properties": ["C01", "C02", "C03", "C04", "C05", "C06", "C07", "C08", "C09", "C10", "C14", "C39", "C41"],
      "kind_free_text": "runs the real front-end/driver Python natively on the symbolic database with proxy values; DFS over branch decisions with z3 feasibility; merges paths by ite"},
     {"name": "chrun", "path": "vt/chrun.py", "serves_properties": ["C19"],
      "kind_free_text": "CrossHair (symbolic execution of the real Python with z3), one process per condition; only 'Confirmed over all paths' discharges"},
@@ -99,6 +99,43 @@ for _pid, _what, _tech in [
                         "from pool.py's WHERE clauses; instances are set up as rows.",
                         technique="z3 bounded model checking of the real SQL routines + front-end Python from the empty database (" + _tech + ")",
                         design_ref="6/" + _pid + ", 3.1")
+
+for _pid, _what, _tech in [
+    ("C02", "Asserted after every step, per resource: per-job, per-job-group (with descendants, over tokens), per billing "
+            "project/user (over tokens) and per-day aggregates equal sum(quantity x billed duration) over the relevant "
+            "attempts; the real compaction functions keep every per-key total. Operations include the real billing heartbeat, "
+            "add_attempt_resources and both compaction functions. Quantities are constants (3, 5), times/tokens/dates symbolic.",
+     "billing aggregates"),
+    ("C08", "The real validate_and_clean_jobs + _create_jobs path is driven with bunches whose dependencies and job ids are "
+            "symbolic choices including invalid ones; accepted bunches must only record dependencies on earlier jobs and ids in "
+            "the reserved range, rejected bunches change nothing, committed jobs never wait on a missing parent.",
+     "acceptance of job graphs"),
+    ("C09", "Asserted in every history with re-sent requests (create_batch, create_update, job bunch, commit; another client's "
+            "update interleaved; update 1 committed or not): a repeat changes no table; update id ranges contiguous/disjoint/"
+            "ordered; job ids inside their range; no double counting. Plus an unbounded z3 equality of the client's and the "
+            "server's id arithmetic lifted from both ASTs.", "idempotent submission"),
+    ("C39", "REDUCED claim — bounded safety and deadlock-freedom of the DB-level protocol, fairness assumed: single current "
+            "attempt; a running batch always has a Ready/Creating/Running job; every Ready job is in a running group with the "
+            "scheduler's or canceller's gate open and selected by its candidate query; enabled actions make progress "
+            "(schedule -> Running incl. always-run in cancelled groups, complete -> terminal, unschedule -> Ready). Not a "
+            "liveness proof of the running service.", "deadlock-freedom / progress at DB level"),
+]:
+    CHECKS[_pid] = dict(level="model_checking", text=BMC_LEVEL + _what, note=SQL_NOTE + " Scheduler/canceller enabledness is "
+                        "hand-transcribed from pool.py / canceller.py; instances are set up as rows.",
+                        technique="z3 bounded model checking of the real SQL routines + front-end/driver Python from the empty database (" + _tech + ")",
+                        design_ref="6/" + _pid + ", 10.1")
+CHECKS["C14"] = dict(
+    level="other",
+    text="Every route registered in front_end.routes: the real decorator stack is executed natively (innermost handler "
+         "replaced by a sentinel, auth._fetch_userdata stubbed with a symbolic outcome, billing-project membership rows "
+         "symbolic, _user_can_access SQL run by sqlsym); for each feasible path reaching the sentinel z3 refutes 'path "
+         "condition and not the route class's requirement' (classes from the property text). Owner filters: the real handlers "
+         "that add jobs/groups/updates or commit are run completely as a non-owner member on a batch built by the real code; "
+         "every path must end in 401/403/404 and change no table. Exhaustive over routes and caller kinds; bounded database.",
+    note=SQL_NOTE + " Session lookup is a stub; bodies of read handlers and the auth service are outside the claim; the closed "
+         "`close` endpoint is not driven (it fails with an SQL error for every caller).",
+    technique="native execution of the real decorator stacks with z3-driven path exploration + z3 refutation per path; sqlsym for the SQL",
+    design_ref="6/C14, 10.1")
 
 NOT_APPLICABLE = {
     "C37": "Scala floating-point statistics calling Apache commons-math (gamma/beta, root finding); no scalac/JVM build of "
